@@ -398,49 +398,78 @@ def remove (nw : Network) (t : Tour) (a b : Nat) : R (Option Tour × List Nat) :
   pure (some { nodes := tourNodes, isDummy := t.isDummy, visitsMaint := vm, usefulDur := ud,
                serviceDist := sd, dhDist := dh, costs := c0 + gapC }, path)
 
-/-- `Tour::insert_path`: `(new tour, removed path or none)` -/
-def insertPath (nw : Network) (strict : Bool) (t : Tour) (path : List Nat) : R (Tour × Option (List Nat)) := do
-  -- dummy tours drop the depots of the path
-  let p1 ← if t.isDummy then do
-      let f ← idxAt path 0
+/-- the node-level part of `Tour::insert_path`: the path after dropping depots for dummy tours,
+    the replaced range `[s, e)`, the replaced nodes and the new node list -/
+structure InsertPlan where
+  newNodes : List Nat
+  s : Nat
+  e : Nat
+  old : List Nat
+  tourNodes : List Nat
+  deriving Repr, DecidableEq
+
+/-- dummy tours drop a leading depot of the path (`drop_first().unwrap()`) -/
+def stripFirst (nw : Network) (isDummy : Bool) (path : List Nat) : R (List Nat) :=
+  if isDummy then
+    match idxAt path 0 with
+    | .error e => .error e
+    | .ok f =>
       if (nw.node f).isDepot then
         match pathTrusted nw (path.drop 1) with
-        | some p => pure p
+        | some p => .ok p
         | none => .error (.panic "insert_path: drop_first().unwrap()")
-      else pure path
-    else pure path
-  let p2 ← if t.isDummy then do
-      let l ← idxAt p1 (p1.length - 1)
+      else .ok path
+  else .ok path
+
+/-- dummy tours drop a trailing depot of the path (`drop_last().unwrap()`) -/
+def stripLast (nw : Network) (isDummy : Bool) (p1 : List Nat) : R (List Nat) :=
+  if isDummy then
+    match idxAt p1 (p1.length - 1) with
+    | .error e => .error e
+    | .ok l =>
       if (nw.node l).isDepot then
         match pathTrusted nw (p1.take (p1.length - 1)) with
-        | some p => pure p
+        | some p => .ok p
         | none => .error (.panic "insert_path: drop_last().unwrap()")
-      else pure p1
-    else pure p1
-  let newNodes := p2
+      else .ok p1
+  else .ok p1
+
+def insertPlan (nw : Network) (strict : Bool) (t : Tour) (path : List Nat) : R InsertPlan :=
+  stripFirst nw t.isDummy path >>= fun p1 =>
+  stripLast nw t.isDummy p1 >>= fun p2 =>
+  idxAt p2 0 >>= fun first =>
+  idxAt p2 (p2.length - 1) >>= fun last =>
+  getInsertPositions nw strict t first last >>= fun se =>
+  slice t.nodes se.1 se.2 >>= fun old =>
+  pure { newNodes := p2, s := se.1, e := se.2, old, tourNodes := t.nodes.take se.1 ++ p2 ++ t.nodes.drop se.2 }
+
+/-- the cache part of `Tour::insert_path` (delta updates; repaired, finding F8: the dead-head
+    distance is recomputed when the cached value is Infinity) -/
+def insertCaches (nw : Network) (t : Tour) (pl : InsertPlan) : R (Bool × Dur × Dist × Dist × Nat) := do
+  let newNodes := pl.newNodes
   let hasMaint := newNodes.any (fun n => (nw.node n).isMaint)
-  let first ← idxAt newNodes 0
-  let last ← idxAt newNodes (newNodes.length - 1)
-  let (s, e) ← getInsertPositions nw strict t first last
-  let old ← slice t.nodes s e
-  let ud0 ← Dur.sub t.usefulDur (nw.usefulDurOf old)
+  let ud0 ← Dur.sub t.usefulDur (nw.usefulDurOf pl.old)
   let ud := Dur.add ud0 (nw.usefulDurOf newNodes)
-  let sd0 ← Dist.sub t.serviceDist (nw.serviceDistOf old)
+  let sd0 ← Dist.sub t.serviceDist (nw.serviceDistOf pl.old)
   let sd := Dist.add sd0 (nw.serviceDistOf newNodes)
-  let segD ← dhDistOfSegment nw t s e
+  let segD ← dhDistOfSegment nw t pl.s pl.e
   let dh0 ← Dist.sub t.dhDist segD
-  let newD ← dhDistOfNewNodes nw t newNodes s e
+  let newD ← dhDistOfNewNodes nw t newNodes pl.s pl.e
   let dh1 := Dist.add dh0 newD
-  let segC ← costsOfSegment nw t s e
+  let segC ← costsOfSegment nw t pl.s pl.e
   let c0 ← subNat t.costs segC "costs underflow"
-  let newC ← costsOfNewNodes nw t newNodes s e
-  let tourNodes := t.nodes.take s ++ newNodes ++ t.nodes.drop e
-  -- repaired code (finding F8): recompute when the cached value is Infinity
-  let dh := if t.dhDist == .inf then nw.dhDistOf tourNodes else dh1
+  let newC ← costsOfNewNodes nw t newNodes pl.s pl.e
+  let dh := if t.dhDist == .inf then nw.dhDistOf pl.tourNodes else dh1
   let vm := hasMaint || (t.visitsMaint &&
-    (!(old.any (fun n => (nw.node n).isMaint)) || tourNodes.any (fun n => (nw.node n).isMaint)))
-  pure ({ nodes := tourNodes, isDummy := t.isDummy, visitsMaint := vm, usefulDur := ud,
-          serviceDist := sd, dhDist := dh, costs := c0 + newC }, pathTrusted nw old)
+    (!(pl.old.any (fun n => (nw.node n).isMaint)) || pl.tourNodes.any (fun n => (nw.node n).isMaint)))
+  pure (vm, ud, sd, dh, c0 + newC)
+
+/-- `Tour::insert_path`: `(new tour, removed path or none)` -/
+def insertPath (nw : Network) (strict : Bool) (t : Tour) (path : List Nat) : R (Tour × Option (List Nat)) := do
+  let pl ← insertPlan nw strict t path
+  let c ← insertCaches nw t pl
+  pure ({ nodes := pl.tourNodes, isDummy := t.isDummy, visitsMaint := c.1, usefulDur := c.2.1,
+          serviceDist := c.2.2.1, dhDist := c.2.2.2.1, costs := c.2.2.2.2 }, pathTrusted nw pl.old)
 
 /-- `preceding_overhead` -/
 def precedingOverhead (nw : Network) (t : Tour) (node : Nat) : R Dur := do
